@@ -133,3 +133,503 @@ Qed.
 
 Lemma digits_no_sp s : digits s -> Forall (fun b => is_sp b = false) s.
 Proof. intros H. eapply Forall_impl; [|exact H]. cbn. intros b Hb. apply digit_not_sp. exact Hb. Qed.
+
+(** ** edge lists *)
+
+Definition sgn (negative : bool) (v : N) : Z := if negative then Z.opp (Z.of_N v) else Z.of_N v.
+
+Lemma pel_digits_sp : forall ds i v negative num acc tl,
+  digits_val ds i = Some v -> v <= isize_max -> (ds <> [] \/ num = true) ->
+  parse_edge_list_go (ds ++ 32 :: tl) i negative num acc =
+  parse_edge_list_go tl 0 false false (acc ++ [sgn negative v]).
+Proof.
+  induction ds as [|c ds IH]; intros i v negative num acc tl Hv Hlim Hnum.
+  - cbn in Hv. inversion Hv; subst. destruct Hnum as [H | ->]; [contradiction|].
+    cbn [app parse_edge_list_go]. cbn [is_digit N.leb N.compare andb]. 
+    change (is_digit 32) with false. change (32 =? 45) with false. change (is_sp 32) with true.
+    cbv iota. reflexivity.
+  - cbn in Hv. destruct (is_digit c) eqn:E; [|discriminate].
+    cbn [app parse_edge_list_go]. rewrite E.
+    pose proof (digits_val_ge _ _ _ Hv).
+    destruct (N.ltb_spec isize_max (i * 10 + (c - 48))); [lia|].
+    apply IH; try assumption. right. reflexivity.
+Qed.
+
+Lemma pel_digits_end : forall ds i v negative num acc,
+  digits_val ds i = Some v -> v <= isize_max -> (ds <> [] \/ num = true) ->
+  parse_edge_list_go ds i negative num acc = Ok (acc ++ [sgn negative v]).
+Proof.
+  induction ds as [|c ds IH]; intros i v negative num acc Hv Hlim Hnum.
+  - cbn in Hv. inversion Hv; subst. destruct Hnum as [H | ->]; [contradiction|]. reflexivity.
+  - cbn in Hv. destruct (is_digit c) eqn:E; [|discriminate].
+    cbn [parse_edge_list_go]. rewrite E.
+    pose proof (digits_val_ge _ _ _ Hv).
+    destruct (N.ltb_spec isize_max (i * 10 + (c - 48))); [lia|].
+    apply IH; try assumption. right. reflexivity.
+Qed.
+
+Lemma sgn_abs z : sgn (z <? 0)%Z (Z.abs_N z) = z.
+Proof. unfold sgn. destruct (Z.ltb_spec z 0); lia. Qed.
+
+Lemma pel_dec_z_sp : forall z acc tl, Z.abs_N z <= isize_max ->
+  parse_edge_list_go (dec_z z ++ 32 :: tl) 0 false false acc =
+  parse_edge_list_go tl 0 false false (acc ++ [z]).
+Proof.
+  intros z acc tl Hz. unfold dec_z. destruct (Z.ltb_spec z 0).
+  - cbn [app parse_edge_list_go]. change (is_digit 45) with false. change (45 =? 45) with true. cbv iota.
+    rewrite (pel_digits_sp _ 0 (Z.abs_N z)); [|apply digits_val_dec|assumption|left; apply dec_nonempty].
+    unfold sgn. do 3 f_equal. lia.
+  - rewrite (pel_digits_sp _ 0 (Z.abs_N z)); [|apply digits_val_dec|assumption|left; apply dec_nonempty].
+    unfold sgn. do 3 f_equal. lia.
+Qed.
+
+Lemma pel_dec_z_end : forall z acc, Z.abs_N z <= isize_max ->
+  parse_edge_list_go (dec_z z) 0 false false acc = Ok (acc ++ [z]).
+Proof.
+  intros z acc Hz. unfold dec_z. destruct (Z.ltb_spec z 0).
+  - cbn [parse_edge_list_go]. change (is_digit 45) with false. change (45 =? 45) with true. cbv iota.
+    rewrite (pel_digits_end _ 0 (Z.abs_N z)); [|apply digits_val_dec|assumption|left; apply dec_nonempty].
+    unfold sgn. do 3 f_equal. lia.
+  - rewrite (pel_digits_end _ 0 (Z.abs_N z)); [|apply digits_val_dec|assumption|left; apply dec_nonempty].
+    unfold sgn. do 3 f_equal. lia.
+Qed.
+
+Theorem parse_edge_list_two : forall t e,
+  Z.abs_N t <= isize_max -> Z.abs_N e <= isize_max ->
+  parse_edge_list (dec_z t ++ [32] ++ dec_z e) = Ok [t; e].
+Proof.
+  intros t e Ht He. unfold parse_edge_list. cbn [app].
+  rewrite pel_dec_z_sp by assumption. rewrite pel_dec_z_end by assumption. reflexivity.
+Qed.
+
+Lemma parse_edge_list_zeros : parse_edge_list [48; 32; 48] = Ok [0; 0]%Z.
+Proof. reflexivity. Qed.
+
+(** ** lines *)
+
+Definition no_nl (s : list byte) : Prop := Forall (fun b => b <> 10) s.
+
+Lemma take_line_nl : forall line rest, no_nl line ->
+  take_line (line ++ 10 :: rest) = (line ++ [10], rest).
+Proof.
+  induction line as [|c line IH]; intros rest H; cbn [app take_line].
+  - reflexivity.
+  - inversion H; subst. destruct (N.eqb_spec c 10); [contradiction|].
+    rewrite IH by assumption. reflexivity.
+Qed.
+
+Theorem read_line_nl : forall body lastc rest,
+  no_nl (body ++ [lastc]) -> lastc <> 13 ->
+  read_line ((body ++ [lastc]) ++ 10 :: rest) = Ok (body ++ [lastc], rest).
+Proof.
+  intros body lastc rest Hnl H13. unfold read_line.
+  destruct ((body ++ [lastc]) ++ 10 :: rest) eqn:E.
+  - destruct body; discriminate.
+  - rewrite <- E. rewrite take_line_nl by assumption.
+    rewrite rev_app_distr. cbn [rev app strip_eol_rev]. change (10 =? 10) with true. cbn [orb].
+    rewrite rev_app_distr. cbn [rev app strip_eol_rev].
+    assert (lastc <> 10) by (apply Forall_app in Hnl; destruct Hnl as [_ Hl]; inversion Hl; assumption).
+    destruct (N.eqb_spec lastc 10); [contradiction|]. destruct (N.eqb_spec lastc 13); [contradiction|].
+    cbn [orb]. change (lastc :: rev body) with ([lastc] ++ rev body).
+    rewrite rev_app_distr, rev_involutive. reflexivity.
+Qed.
+
+Lemma digits_no_nl s : digits s -> no_nl s.
+Proof. intros H. eapply Forall_impl; [|exact H]. cbn. intros b Hb. apply digit_not_sp in Hb. tauto. Qed.
+
+Lemma dec_z_no_nl z : no_nl (dec_z z).
+Proof.
+  unfold dec_z. destruct (z <? 0)%Z; [constructor; [discriminate|]|]; apply digits_no_nl, dec_digits.
+Qed.
+
+Lemma dec_z_last z : exists body lastc, dec_z z = body ++ [lastc] /\ is_digit lastc = true.
+Proof.
+  assert (H : forall s, digits s -> s <> [] -> exists body lastc, s = body ++ [lastc] /\ is_digit lastc = true).
+  { intros s Hd Hne. destruct (exists_last Hne) as (body & lastc & ->).
+    exists body, lastc. split; [reflexivity|]. apply Forall_app in Hd. destruct Hd as [_ Hl]. inversion Hl; assumption. }
+  unfold dec_z. destruct (H (dec (Z.abs_N z)) (dec_digits _) (dec_nonempty _)) as (body & lastc & E & Hl).
+  destruct (z <? 0)%Z.
+  - exists (45 :: body), lastc. rewrite E. split; [reflexivity|assumption].
+  - exists body, lastc. split; assumption.
+Qed.
+
+Lemma no_nl_app a b : no_nl a -> no_nl b -> no_nl (a ++ b).
+Proof. intros. apply Forall_app. split; assumption. Qed.
+
+Lemma no_nl_one c : c <> 10 -> no_nl [c].
+Proof. intros. constructor; [assumption|constructor]. Qed.
+
+Lemma no_nl_dec n : no_nl (dec n).
+Proof. apply digits_no_nl, dec_digits. Qed.
+
+Lemma no_nl_cons c r : c <> 10 -> no_nl r -> no_nl (c :: r).
+Proof. intros. constructor; assumption. Qed.
+
+Lemma no_nl_nil : no_nl [].
+Proof. constructor. Qed.
+
+Ltac solve_no_nl :=
+  repeat first [ apply no_nl_nil | apply no_nl_dec | apply dec_z_no_nl | assumption
+               | apply no_nl_app | apply no_nl_cons; [discriminate|] ].
+
+(** the text of an inner node line without its line break *)
+Definition inner_text (id v : N) (t e : Z) : list byte :=
+  dec id ++ [32] ++ dec v ++ [32] ++ dec_z t ++ [32] ++ dec_z e.
+Definition term_text (id : N) (desc : list byte) : list byte :=
+  dec id ++ [32] ++ desc ++ [32; 48; 32; 48].
+
+Lemma export_ascii_line_inner id v t e :
+  export_ascii_line id (AInner v t e) = inner_text id v t e ++ [10].
+Proof. unfold export_ascii_line, inner_text. rewrite <- !app_assoc. reflexivity. Qed.
+
+Lemma export_ascii_line_term id desc :
+  export_ascii_line id (ATerm desc) = term_text id desc ++ [10].
+Proof. unfold export_ascii_line, term_text. rewrite <- !app_assoc. reflexivity. Qed.
+
+Lemma read_line_inner id v t e rest :
+  read_line ((inner_text id v t e ++ [10]) ++ rest) = Ok (inner_text id v t e, rest).
+Proof.
+  destruct (dec_z_last e) as (body & lastc & E & Hl).
+  unfold inner_text. rewrite E.
+  replace (dec id ++ [32] ++ dec v ++ [32] ++ dec_z t ++ [32] ++ body ++ [lastc])
+    with ((dec id ++ [32] ++ dec v ++ [32] ++ dec_z t ++ [32] ++ body) ++ [lastc])
+    by (rewrite <- !app_assoc; reflexivity).
+  rewrite <- app_assoc. cbn [app].
+  apply read_line_nl.
+  - assert (Hz : no_nl (body ++ [lastc])) by (rewrite <- E; apply dec_z_no_nl).
+    apply Forall_app in Hz. destruct Hz as [Hz1 Hz2].
+    solve_no_nl.
+  - apply digit_not_sp in Hl. tauto.
+Qed.
+
+Lemma read_line_term id desc rest : no_nl desc ->
+  read_line ((term_text id desc ++ [10]) ++ rest) = Ok (term_text id desc, rest).
+Proof.
+  intros Hd. unfold term_text.
+  replace (dec id ++ [32] ++ desc ++ [32; 48; 32; 48])
+    with ((dec id ++ [32] ++ desc ++ [32; 48; 32]) ++ [48])
+    by (rewrite <- !app_assoc; reflexivity).
+  rewrite <- app_assoc. cbn [app].
+  apply read_line_nl; [|discriminate].
+  solve_no_nl.
+Qed.
+
+(** ** one line *)
+
+Definition token (tok : list byte) : Prop := tok <> [] /\ Forall (fun b => is_sp b = false) tok.
+
+Lemma token_dec n : token (dec n).
+Proof. split; [apply dec_nonempty|apply digits_no_sp, dec_digits]. Qed.
+
+Lemma trim_start_token tok x : token tok -> trim_start (tok ++ x) = tok ++ x.
+Proof.
+  intros [Hne Hf]. destruct tok as [|c r]; [contradiction|]. inversion Hf; subst.
+  cbn [app trim_start]. rewrite H1. reflexivity.
+Qed.
+
+Lemma trim_start_sp_token tok x : token tok -> trim_start (32 :: tok ++ x) = tok ++ x.
+Proof. intros H. cbn [trim_start]. change (is_sp 32) with true. cbv iota. apply trim_start_token. exact H. Qed.
+
+(** the common beginning of both kinds of lines: node ID, then a token *)
+Lemma line_head : forall id tok tail, id < usize_limit -> token tok ->
+  parse_usize (dec id ++ [32] ++ tok ++ 32 :: tail) = Ok (32 :: tok ++ 32 :: tail, id).
+Proof.
+  intros id tok tail Hid Htok. apply parse_usize_dec; [assumption|].
+  right. exists 32, (tok ++ 32 :: tail). split; reflexivity.
+Qed.
+
+Theorem import_ascii_line_term : forall k slm st id desc e,
+  id < usize_limit -> token desc -> parse_terminal k desc = Some e ->
+  import_ascii_line k true slm st id (term_text id desc) = Ok (mkS (st_store st) (st_nodes st ++ [e])).
+Proof.
+  intros k slm st id desc e Hid Htok Hp. unfold import_ascii_line, term_text.
+  change (desc ++ [32; 48; 32; 48]) with (desc ++ 32 :: [48; 32; 48]).
+  rewrite line_head by assumption. cbn [bind]. rewrite N.eqb_refl. cbn [negb].
+  rewrite trim_start_sp_token by assumption. cbn [bind].
+  rewrite trim_start_token by assumption.
+  rewrite split_sp_token by apply Htok.
+  rewrite parse_edge_list_zeros. cbn [bind]. cbn [Z.eqb orb].
+  rewrite Hp. reflexivity.
+Qed.
+
+(** ** diagrams as the ASCII exporter numbers them
+
+    The terminals come first (node IDs [1..T], their edges are [tedges]), then the inner
+    nodes bottom-up; entry [j] of [l] has node ID [T + 1 + j].  References are signed. *)
+Record ainode := mkA { av : N; at_ : Z; ae : Z }.
+
+Section AsciiDag.
+Variable k : kind.
+Variable slm : list N.
+Variable tedges : list cedge.
+Let T := N.of_nat (length tedges).
+
+Definition aref (id : N) : cedge :=
+  if id <=? T then nth (N.to_nat (id - 1)) tedges (mkE (RTerm TNaN) false)
+  else mkE (RNode (id - T - 1)) false.
+
+Definition sref (z : Z) : cedge :=
+  if (z <? 0)%Z then neg (aref (Z.abs_N z)) else aref (Z.abs_N z).
+
+Definition acn (nd : ainode) : cnode := mkN (lvl slm (av nd)) (sref (at_ nd)) (sref (ae nd)).
+
+Definition anodes_upto (j : nat) : list cedge :=
+  tedges ++ map (fun i => mkE (RNode (N.of_nat i)) false) (seq 0 j).
+
+Definition astate (l : list ainode) (j : nat) : ist := mkS (map acn (firstn j l)) (anodes_upto j).
+
+Definition achild_ok (l : list ainode) (j : nat) (v : N) (c : Z) : Prop :=
+  c <> 0%Z /\ Z.abs_N c < T + 1 + N.of_nat j /\
+  (T < Z.abs_N c -> exists nd', nth_error l (N.to_nat (Z.abs_N c - T - 1)) = Some nd' /\ v < av nd') /\
+  ((c < 0)%Z -> k = KBCDD).
+
+(** the reduction rule of the kind does not fire and does not normalise *)
+Definition norm_free (t e : cedge) : Prop :=
+  match k with
+  | KBCDD => t <> e /\ ce_tag t = false
+  | KZBDD => ce_ref t <> RTerm (TNum 0)
+  | KBDD | KMTBDD => t <> e
+  end.
+
+Definition awf_at (l : list ainode) (j : nat) (nd : ainode) : Prop :=
+  av nd < N.of_nat (length slm) /\ achild_ok l j (av nd) (at_ nd) /\ achild_ok l j (av nd) (ae nd) /\
+  norm_free (sref (at_ nd)) (sref (ae nd)).
+
+Definition awf_dag (l : list ainode) : Prop :=
+  NoDup (map acn l) /\ forall j nd, nth_error l j = Some nd -> awf_at l j nd.
+
+Hypothesis tedges_terminal : Forall (fun e => exists v, ce_ref e = RTerm v) tedges.
+Hypothesis slm_incr : incr slm.
+Hypothesis slm_max : Forall (fun x => x < level_max) slm.
+
+Lemma anodes_upto_S j : anodes_upto (S j) = anodes_upto j ++ [mkE (RNode (N.of_nat j)) false].
+Proof. unfold anodes_upto. rewrite seq_S, map_app, app_assoc. reflexivity. Qed.
+
+Lemma nth_error_anodes j id : 1 <= id -> id < T + 1 + N.of_nat j ->
+  nth_error (anodes_upto j) (N.to_nat (id - 1)) = Some (aref id).
+Proof.
+  intros H1 H2. unfold anodes_upto, aref. destruct (N.leb_spec id T).
+  - rewrite nth_error_app1 by (subst T; lia). apply nth_error_nth'. subst T. lia.
+  - rewrite nth_error_app2 by (subst T; lia).
+    replace (N.to_nat (id - 1) - length tedges)%nat with (N.to_nat (id - T - 1)) by (subst T; lia).
+    rewrite nth_error_map.
+    rewrite nth_error_nth' with (d := O) by (rewrite seq_length; lia).
+    rewrite seq_nth by lia. cbn. rewrite N2Nat.id. reflexivity.
+Qed.
+
+Lemma aref_level l j id : 1 <= id -> id < T + 1 + N.of_nat j -> (j <= length l)%nat ->
+  edge_level (st_store (astate l j)) (aref id) =
+  if id <=? T then level_max
+  else match nth_error l (N.to_nat (id - T - 1)) with Some nd' => lvl slm (av nd') | None => level_max end.
+Proof.
+  intros H1 H2 Hj. unfold aref, edge_level. destruct (N.leb_spec id T).
+  - assert (Hin : In (nth (N.to_nat (id - 1)) tedges (mkE (RTerm TNaN) false)) tedges)
+      by (apply nth_In; subst T; lia).
+    rewrite Forall_forall in tedges_terminal. destruct (tedges_terminal _ Hin) as [v ->]. reflexivity.
+  - cbn [ce_ref]. unfold astate. cbn [st_store].
+    rewrite nth_error_map, nth_error_firstn by lia.
+    destruct (nth_error l (N.to_nat (id - T - 1))); reflexivity.
+Qed.
+
+Lemma mk_node_norm_free store level t e :
+  norm_free t e -> (forall x, In x store -> x <> mkN level t e) ->
+  mk_node k store level t e = (store ++ [mkN level t e], mkE (RNode (N.of_nat (length store))) false).
+Proof.
+  unfold norm_free, mk_node. intros Hn Hnew.
+  assert (Hne : t <> e -> cedge_eqb t e = false).
+  { intros H. destruct (cedge_eqb t e) eqn:E; [|reflexivity]. apply cedge_eqb_eq in E. contradiction. }
+  destruct k.
+  - rewrite Hne, find_or_add_fresh by assumption. reflexivity.
+  - destruct Hn as [Hn Htag]. rewrite Hne, Htag, find_or_add_fresh by assumption. reflexivity.
+  - assert (cref_eqb (ce_ref t) (RTerm (TNum 0)) = false).
+    { destruct (cref_eqb (ce_ref t) (RTerm (TNum 0))) eqn:E; [|reflexivity]. apply cref_eqb_eq in E. contradiction. }
+    rewrite H, find_or_add_fresh by assumption. reflexivity.
+  - rewrite Hne, find_or_add_fresh by assumption. reflexivity.
+Qed.
+
+(** checks and edge of one child reference *)
+Lemma achild_steps l j v c store : (j <= length l)%nat ->
+  (forall j nd, nth_error l j = Some nd -> awf_at l j nd) ->
+  v < N.of_nat (length slm) ->
+  achild_ok l j v c ->
+  ascii_child_check (astate l j) (T + 1 + N.of_nat j) (lvl slm v) c = Ok (aref (Z.abs_N c)) /\
+  ascii_child_edge k store (aref (Z.abs_N c)) c = Ok (store, sref c).
+Proof.
+  intros Hj Hwf Hv (Hc0 & Hc1 & Hc2 & Hc3).
+  assert (H1 : 1 <= Z.abs_N c) by lia.
+  split.
+  - unfold ascii_child_check, node_at.
+    destruct (N.leb_spec (T + 1 + N.of_nat j) (Z.abs_N c)); [lia|].
+    unfold astate at 1. cbn [st_nodes].
+    rewrite nth_error_anodes by assumption. cbn [bind].
+    rewrite aref_level by assumption.
+    destruct (N.leb_spec (Z.abs_N c) T).
+    + pose proof (lvl_lt_max slm v slm_max Hv). destruct (N.leb_spec level_max (lvl slm v)); [lia|reflexivity].
+    + destruct (Hc2 ltac:(assumption)) as (nd' & Hn & Hlt). rewrite Hn.
+      assert (av nd' < N.of_nat (length slm)) by (apply (Hwf _ _ Hn)).
+      pose proof (lvl_lt slm _ _ slm_incr Hlt ltac:(assumption)).
+      destruct (N.leb_spec (lvl slm (av nd')) (lvl slm v)); [lia|reflexivity].
+  - unfold ascii_child_edge, sref. destruct (Z.ltb_spec c 0); [|reflexivity].
+    rewrite (Hc3 ltac:(assumption)). reflexivity.
+Qed.
+
+Theorem import_ascii_line_inner : forall l j nd,
+  awf_dag l -> nth_error l j = Some nd ->
+  T + 1 + N.of_nat j <= isize_max -> N.of_nat (length slm) <= 4294967296 ->
+  import_ascii_line k true slm (astate l j) (T + 1 + N.of_nat j)
+                    (inner_text (T + 1 + N.of_nat j) (av nd) (at_ nd) (ae nd))
+  = Ok (astate l (S j)).
+Proof.
+  intros l j nd [Hnodup Hwf] Hn Hid Hns.
+  destruct (Hwf j nd Hn) as (Hv & Hct & Hce & Hnf).
+  assert (Hj : (j < length l)%nat) by (apply nth_error_Some; congruence).
+  assert (Hidu : T + 1 + N.of_nat j < usize_limit) by (unfold isize_max, usize_limit in *; lia).
+  unfold import_ascii_line, inner_text.
+  change ([32] ++ dec (av nd) ++ [32] ++ dec_z (at_ nd) ++ [32] ++ dec_z (ae nd))
+    with ([32] ++ dec (av nd) ++ 32 :: (dec_z (at_ nd) ++ [32] ++ dec_z (ae nd))).
+  rewrite line_head by (try assumption; apply token_dec). cbn [bind]. rewrite N.eqb_refl. cbn [negb].
+  rewrite trim_start_sp_token by apply token_dec. cbn [bind].
+  rewrite trim_start_token by apply token_dec.
+  rewrite split_sp_token by apply token_dec.
+  pose proof Hct as (Ht0 & Ht1 & _). pose proof Hce as (He0 & He1 & _).
+  rewrite parse_edge_list_two by lia. cbn [bind].
+  destruct (Z.eqb_spec (at_ nd) 0); [contradiction|]. destruct (Z.eqb_spec (ae nd) 0); [contradiction|].
+  cbn [orb].
+  rewrite parse_u32_dec by lia. cbn [bind].
+  rewrite lvl_nth_error by assumption.
+  destruct (achild_steps l j (av nd) (at_ nd) (st_store (astate l j)) ltac:(lia) Hwf Hv Hct) as [Hc1 Hd1].
+  destruct (achild_steps l j (av nd) (ae nd) (st_store (astate l j)) ltac:(lia) Hwf Hv Hce) as [Hc2 Hd2].
+  rewrite Hc1. cbn [bind]. rewrite Hc2. cbn [bind]. rewrite Hd1. cbn [bind]. rewrite Hd2. cbn [bind].
+  rewrite mk_node_norm_free.
+  - unfold astate. cbn [st_store st_nodes].
+    rewrite map_length, firstn_length, Nat.min_l by lia.
+    rewrite (firstn_snoc l j nd Hn), map_app, anodes_upto_S. reflexivity.
+  - exact Hnf.
+  - intros x Hx Heq. unfold astate in Hx. cbn [st_store] in Hx.
+    apply In_nth_error in Hx. destruct Hx as (i & Hi).
+    assert (Hij : (i < j)%nat).
+    { assert (Hl : (i < length (map acn (firstn j l)))%nat) by (apply nth_error_Some; congruence).
+      rewrite map_length, firstn_length in Hl. lia. }
+    rewrite <- (firstn_skipn j l) in Hnodup. rewrite map_app in Hnodup.
+    rewrite (skipn_nth l j nd Hn) in Hnodup. cbn [map] in Hnodup.
+    apply NoDup_remove_2 in Hnodup. apply Hnodup. apply in_or_app. left.
+    change (acn nd) with (mkN (lvl slm (av nd)) (sref (at_ nd)) (sref (ae nd))). rewrite <- Heq.
+    eapply nth_error_In. exact Hi.
+Qed.
+
+End AsciiDag.
+
+(** ** the whole ASCII node section *)
+
+Definition ainner (nd : ainode) : anode := AInner (av nd) (at_ nd) (ae nd).
+
+Lemma import_ascii_loop_app : forall k vin slm n1 n2 id st inp,
+  import_ascii_loop k vin slm (n1 + n2) id st inp =
+  bind (import_ascii_loop k vin slm n1 id st inp)
+       (fun r => import_ascii_loop k vin slm n2 (id + N.of_nat n1) (fst r) (snd r)).
+Proof.
+  induction n1 as [|n1 IH]; intros n2 id st inp.
+  - cbn [Nat.add import_ascii_loop bind fst snd]. f_equal. lia.
+  - cbn [Nat.add import_ascii_loop].
+    destruct (read_line inp) as [[line inp']|]; cbn [bind]; [|reflexivity].
+    destruct (import_ascii_line k vin slm st id line); cbn [bind]; [|reflexivity].
+    rewrite IH. replace (id + 1 + N.of_nat n1) with (id + N.of_nat (S n1)) by lia. reflexivity.
+Qed.
+
+Lemma export_ascii_from_app : forall a b id,
+  export_ascii_from id (a ++ b) = export_ascii_from id a ++ export_ascii_from (id + N.of_nat (length a)) b.
+Proof.
+  induction a as [|x a IH]; intros b id.
+  - cbn. f_equal. lia.
+  - cbn [app export_ascii_from length]. rewrite IH, <- app_assoc. do 3 f_equal. lia.
+Qed.
+
+(** description and edge of every terminal *)
+Definition terms_ok (k : kind) (descs : list (list byte)) (tedges : list cedge) : Prop :=
+  Forall2 (fun d e => token d /\ no_nl d /\ parse_terminal k d = Some e) descs tedges.
+
+Lemma Forall2_nth_error {A B} (R : A -> B -> Prop) la lb i a :
+  Forall2 R la lb -> nth_error la i = Some a -> exists b, nth_error lb i = Some b /\ R a b.
+Proof.
+  intros H. revert i. induction H as [|x y la lb Hxy _ IH]; intros [|i] Hi; cbn in *; try discriminate.
+  - inversion Hi; subst. eauto.
+  - apply IH. exact Hi.
+Qed.
+
+Lemma Forall2_len {A B} (R : A -> B -> Prop) la lb : Forall2 R la lb -> length la = length lb.
+Proof. induction 1; cbn; congruence. Qed.
+
+Lemma ascii_loop_terms : forall k slm descs tedges rest,
+  terms_ok k descs tedges -> N.of_nat (length descs) < usize_limit ->
+  forall n i, (i + n = length descs)%nat ->
+  import_ascii_loop k true slm n (N.of_nat i + 1) (mkS [] (firstn i tedges))
+    (export_ascii_from (N.of_nat i + 1) (map ATerm (skipn i descs)) ++ rest)
+  = Ok (mkS [] tedges, rest).
+Proof.
+  intros k slm descs tedges rest Hok Hlim.
+  assert (Hlen : length descs = length tedges) by (eapply Forall2_len; exact Hok).
+  induction n as [|n IH]; intros i Hi.
+  - assert (i = length descs) by lia. subst i. rewrite skipn_all, Hlen, firstn_all. reflexivity.
+  - destruct (nth_error descs i) as [d|] eqn:Hd; [|apply nth_error_None in Hd; lia].
+    destruct (Forall2_nth_error _ _ _ _ _ Hok Hd) as (e & He & Htok & Hnl & Hp).
+    rewrite (skipn_nth descs i d Hd). cbn [map export_ascii_from import_ascii_loop].
+    rewrite export_ascii_line_term, <- app_assoc.
+    rewrite app_assoc, read_line_term by assumption. cbn [bind].
+    rewrite (import_ascii_line_term k slm _ _ d e) by (try assumption; lia). cbn [bind st_store st_nodes].
+    rewrite <- (firstn_snoc tedges i e He).
+    replace (N.of_nat i + 1 + 1) with (N.of_nat (S i) + 1) by lia.
+    apply IH. lia.
+Qed.
+
+Lemma ascii_loop_inner : forall k slm tedges l rest,
+  Forall (fun e => exists v, ce_ref e = RTerm v) tedges -> incr slm -> Forall (fun x => x < level_max) slm ->
+  awf_dag k slm tedges l ->
+  N.of_nat (length tedges) + 1 + N.of_nat (length l) <= isize_max ->
+  N.of_nat (length slm) <= 4294967296 ->
+  forall n j, (j + n = length l)%nat ->
+  import_ascii_loop k true slm n (N.of_nat (length tedges) + 1 + N.of_nat j) (astate slm tedges l j)
+    (export_ascii_from (N.of_nat (length tedges) + 1 + N.of_nat j) (map ainner (skipn j l)) ++ rest)
+  = Ok (astate slm tedges l (length l), rest).
+Proof.
+  intros k slm tedges l rest Hterm Hi Hf Hwf Hlim Hns.
+  induction n as [|n IH]; intros j Hj.
+  - assert (j = length l) by lia. subst j. rewrite skipn_all. reflexivity.
+  - destruct (nth_error l j) as [nd|] eqn:Hn; [|apply nth_error_None in Hn; lia].
+    rewrite (skipn_nth l j nd Hn). cbn [map export_ascii_from import_ascii_loop].
+    unfold ainner at 1. rewrite export_ascii_line_inner, <- app_assoc.
+    rewrite app_assoc, read_line_inner. cbn [bind].
+    rewrite (import_ascii_line_inner k slm tedges Hterm Hi Hf l j nd Hwf Hn) by lia. cbn [bind].
+    replace (N.of_nat (length tedges) + 1 + N.of_nat j + 1)
+      with (N.of_nat (length tedges) + 1 + N.of_nat (S j)) by lia.
+    apply IH. lia.
+Qed.
+
+(** The importer reads the exporter's ASCII node section back: the terminals become the
+    edges their descriptions parse to, node ID [T + 1 + i] denotes entry [i] of the
+    unique table, which holds exactly the exported nodes. *)
+Theorem import_export_ascii : forall k slm descs tedges l rest,
+  terms_ok k descs tedges ->
+  Forall (fun e => exists v, ce_ref e = RTerm v) tedges ->
+  incr slm -> Forall (fun x => x < level_max) slm ->
+  awf_dag k slm tedges l ->
+  N.of_nat (length tedges) + 1 + N.of_nat (length l) <= isize_max ->
+  N.of_nat (length slm) <= 4294967296 ->
+  import_ascii k true slm (N.of_nat (length descs + length l))
+               (export_ascii_nodes (map ATerm descs ++ map ainner l) ++ rest)
+  = Ok (astate slm tedges l (length l), rest).
+Proof.
+  intros k slm descs tedges l rest Hok Hterm Hi Hf Hwf Hlim Hns.
+  assert (Hlen : length descs = length tedges) by (eapply Forall2_len; exact Hok).
+  unfold import_ascii, export_ascii_nodes. rewrite Nat2N.id.
+  rewrite import_ascii_loop_app, export_ascii_from_app, <- app_assoc, map_length.
+  pose proof (ascii_loop_terms k slm descs tedges
+                (export_ascii_from (1 + N.of_nat (length descs)) (map ainner l) ++ rest) Hok
+                ltac:(unfold isize_max, usize_limit in *; lia) (length descs) O eq_refl) as H1.
+  cbn [firstn skipn N.of_nat] in H1. change (0 + 1) with 1 in H1.
+  unfold empty_state. rewrite H1. cbn [bind fst snd].
+  pose proof (ascii_loop_inner k slm tedges l rest Hterm Hi Hf Hwf Hlim Hns (length l) O eq_refl) as H2.
+  cbn [skipn] in H2.
+  replace (N.of_nat (length tedges) + 1 + N.of_nat 0) with (1 + N.of_nat (length descs)) in H2 by lia.
+  unfold astate at 1 in H2. cbn [firstn map] in H2. unfold anodes_upto in H2. cbn [seq map] in H2.
+  rewrite app_nil_r in H2. exact H2.
+Qed.
